@@ -707,8 +707,13 @@ static void write_param(const __u8 *b, __u32 n)
 	}
 	if (n > sizeof(PARAM))
 		n = sizeof(PARAM);
-	memset((void *)&PARAM, 0, sizeof(PARAM));
-	memcpy((void *)&PARAM, b, n);
+	// launder the pointer: PARAM is declared const, the compiler must not see the store target
+	void *q = (void *)&PARAM;
+
+	__asm__ __volatile__("" : "+r"(q) : : "memory");
+	memset(q, 0, sizeof(PARAM));
+	memcpy(q, b, n);
+	__asm__ __volatile__("" : : "r"(q) : "memory");
 }
 
 static void reset_all(void)
